@@ -452,6 +452,21 @@ Proof.
     apply in_or_app; right. apply in_or_app; left.
     destruct (N.leb_spec 30 (2 * N.of_nat (List.length context) + 4)); [left; reflexivity|lia].
 Qed.
+
+(* the register list as it was computed BEFORE fix b8c7d78 (`>` instead of `>=`): with exactly 13
+   live variables the second temporary of the 13th variable is X30, and X30 is NOT saved - so
+   [saved_covers_live] is false of that code (and its proof above breaks in the case r = 29) *)
+Definition info_before_fix (context : ctx) : list N :=
+  let first_free_register := (2 * N.of_nat (List.length context) + RESERVED)%N in
+  [0; 1]%N ++ (if N.ltb REGISTER_NUM first_free_register then [REGISTER_NUM - 1]%N else []) ++ ctx_regs context.
+Example saved_covers_live_fails_before_fix :
+  let context := repeat (mkb ("x"%string, 0%N) Ext I64) 13 in
+  nth_error context 12 = Some (mkb ("x"%string, 0%N) Ext I64) /\
+  temporary_from_position (2 * N.of_nat 12 + tnum_n Snd) = Ok (AR (X 29)) /\
+  ~ In 29%N (info_before_fix context) /\
+  In 29%N (snd (caller_save_registers_info context)).
+Proof. vm_compute. repeat split; try tauto. intros H. repeat (destruct H as [H|H]; [discriminate|]). exact H. Qed.
+
 (* every saved register is one the callee may clobber *)
 Theorem saved_are_clobberable context r :
   In r (snd (caller_save_registers_info context)) -> (r <= 17)%N \/ r = 29%N.
